@@ -1032,14 +1032,15 @@ class System(StoredHw, Datetime, Logbook, SystemBase):
         # FC: 00-C8 (no F9, FA), TODO: deprecate as FC only?
         if not self._heat_demands:
             return None
-        return {k: v.payload["heat_demand"] for k, v in self._heat_demands.items()}
+        # NB: a sentinel value (e.g. 3150|FCFF) has a heat_demand_fault, but no heat_demand
+        return {k: v.payload.get("heat_demand") for k, v in self._heat_demands.items()}
 
     @property
     def relay_demands(self) -> dict[str, Any] | None:  # 0008
         # FC: 00-C8, F9: 00-C8, FA: 00 or C8 only (01: all 3, 02: FC/FA only)
         if not self._relay_demands:
             return None
-        return {k: v.payload["relay_demand"] for k, v in self._relay_demands.items()}
+        return {k: v.payload.get("relay_demand") for k, v in self._relay_demands.items()}
 
     @property
     def relay_failsafes(self) -> dict[str, Any] | None:  # 0009
